@@ -235,6 +235,7 @@ Section Pass.
   Variable ninf pinf : V.                      (* float("-inf"), float("inf") *)
   Variable half : V.                           (* RelativeWidthModifier(0.5): the default *)
   Variable bin : binop -> V -> V -> V.
+  Variable un : unop -> V -> V.
 
   Inductive wmod := WAbs (v : V) | WRel (v : V).
 
@@ -451,7 +452,7 @@ Section Pass.
       | NConst v => Some (NConst v)
       | NTuple ms => option_map (fun r => NTuple (sort_by (member_pos V) r)) (fix_members ms)   (* the realised tuple *)
       | NBin _ _ _ _ _ =>                                                                  (* the realised float *)
-          match inst V bin vals n with IV v => Some (NConst v) | _ => None end
+          match inst V bin un vals n with IV v => Some (NConst v) | _ => None end
       | NModel cls ctor attrs =>
           option_map (NModel cls ctor)
             ((fix go (a : list (string * node)) : option (list (string * node)) :=
@@ -495,7 +496,7 @@ Definition fpass (cfg : config float) (specs : list (nat * fspec)) : fmode -> no
        gl_mean_F gl_sigma_F lu_lower_F lu_upper_F lu_bad_lower_F prior_bad_limits_F sigma_negative_F
        neg_infinity infinity 0x1p-1%float cfg specs.
 
-Definition ffixed : node float -> list float -> option (node float) := fixed float fbin.
+Definition ffixed : node float -> list float -> option (node float) := fixed float fbin funop.
 
 Definition family_eqb (a b : family) : bool :=
   match a, b with
@@ -521,7 +522,7 @@ Definition spec_eqb (a b : fspec) : bool :=
 
 Definition binop_eqb (a b : binop) : bool :=
   match a, b with
-  | OAdd, OAdd | OSub, OSub | OMul, OMul | ODiv, ODiv => true
+  | OAdd, OAdd | OSub, OSub | OMul, OMul | ODiv, ODiv | OFloorDiv, OFloorDiv | OMod, OMod => true
   | _, _ => false
   end.
 
